@@ -29,6 +29,7 @@ type Env struct {
 	fr      *Frame
 	loop    *loopInfo
 	depth   int
+	atAnchor bool // evaluating an anchored assert / ghost update inside the function body
 }
 
 func (e *Env) withState(st *State) *Env {
@@ -189,6 +190,8 @@ func (e *Env) sortOfName(s string) (Sort, types.Type) {
 		return ArraySort(SInt, SBool), nil
 	case "StrSet":
 		return ArraySort(SStr, SBool), nil
+	case "IfaceSet":
+		return ArraySort(SIface, SBool), nil
 	case "StrIntMap":
 		return ArraySort(SStr, SInt), nil
 	case "IntIntMap":
@@ -261,8 +264,8 @@ func (e *Env) eval(x Expr) Val {
 
 func (e *Env) evalIdent(name string) Val {
 	u := e.u
-	if e.loop != nil && e.fr != nil && e.cur != e.old {
-		// inside a loop invariant a parameter name denotes the current value of the parameter's
+	if (e.loop != nil || e.atAnchor) && e.fr != nil && e.cur != e.old {
+		// inside a loop invariant (and an anchored assert / ghost update) a parameter name denotes the current value of the parameter's
 		// cell (parameters are mutable in Go); old(p) still gives the value on entry
 		if _, isVar := e.vars[name]; isVar {
 			if a, ok := e.fr.localNames[name]; ok && !a.Heap {
@@ -966,7 +969,7 @@ func (e *Env) evalCall(x *ECall) Val {
 		if e.depth > 12 {
 			e.fail("pred recursion too deep at %s", p.Name)
 		}
-		n := &Env{u: u, vars: map[string]Val{}, cur: e.cur, old: e.old, pkgPath: e.pkgPath, fr: e.fr, loop: e.loop, depth: e.depth + 1}
+		n := &Env{u: u, vars: map[string]Val{}, cur: e.cur, old: e.old, pkgPath: e.pkgPath, fr: e.fr, loop: e.loop, depth: e.depth + 1, atAnchor: e.atAnchor}
 		if p.Pkg != "" {
 			n.pkgPath = p.Pkg
 		}
